@@ -16,17 +16,17 @@ import (
 // C08: multipart uploads assemble exactly the chosen parts and stay isolated.
 
 type c08Op struct {
-	Kind  string    `json:"kind"` // create part partcopy listparts listuploads complete abort listobjects get restart
-	U     int       `json:"u"`    // upload slot
-	N     int       `json:"n,omitempty"`
-	Size  int       `json:"size,omitempty"`
-	Seed  uint64    `json:"seed,omitempty"`
-	Range string    `json:"range,omitempty"` // partcopy: "" | a-b | a- | oob | reversed | beyond
-	Parts []int     `json:"parts,omitempty"` // complete: part numbers in the order listed
-	Bad   string    `json:"bad,omitempty"`   // complete: "" | wrong-etag | missing-part | descending | small-middle | empty | wrong-size-header
-	Max   int       `json:"max,omitempty"`   // list paging
-	GW    int       `json:"gw"`
-	Frag  int       `json:"frag,omitempty"`
+	Kind  string `json:"kind"` // create part partcopy listparts listuploads complete abort listobjects get restart
+	U     int    `json:"u"`    // upload slot
+	N     int    `json:"n,omitempty"`
+	Size  int    `json:"size,omitempty"`
+	Seed  uint64 `json:"seed,omitempty"`
+	Range string `json:"range,omitempty"` // partcopy: "" | a-b | a- | oob | reversed | beyond
+	Parts []int  `json:"parts,omitempty"` // complete: part numbers in the order listed
+	Bad   string `json:"bad,omitempty"`   // complete: "" | wrong-etag | missing-part | descending | small-middle | empty | wrong-size-header
+	Max   int    `json:"max,omitempty"`   // list paging
+	GW    int    `json:"gw"`
+	Frag  int    `json:"frag,omitempty"`
 }
 
 type c08Prog struct {
@@ -49,7 +49,9 @@ func (c08) Runs(tier string) int {
 	}
 	return 600
 }
-func (c08) RequiredProbes(string) []string { return []string{"valid_completion_checked", "invalid_completion_checked"} }
+func (c08) RequiredProbes(string) []string {
+	return []string{"valid_completion_checked", "invalid_completion_checked"}
+}
 
 const fiveMiB = 5 << 20
 
